@@ -26,6 +26,7 @@ import (
 	"testing"
 	"time"
 
+	"github.com/postalsys/muti-metroo/internal/config"
 	"github.com/postalsys/muti-metroo/internal/identity"
 	"github.com/postalsys/muti-metroo/internal/verifkit"
 )
@@ -157,6 +158,8 @@ type c16FlapOut struct {
 	Frames    int64          `json:"frames_tapped"`
 	PeakBook  int64          `json:"peak_entries_seen"`
 	LiveKills [][2]int       `json:"links_closed_while_tunnels_live,omitempty"`
+	Sleeper   string         `json:"transit_that_slept_and_woke,omitempty"`
+	BusyAtSleep bool         `json:"transfers_in_flight_when_it_went_to_sleep,omitempty"`
 	IdleAtKill int           `json:"idle_tunnels_open_at_kill,omitempty"`
 }
 
@@ -177,7 +180,26 @@ func c16FlapScenario(t testing.TB, r *verifkit.R, phase string, ci int, rng *ver
 		return nil, nil, nil
 	}
 	tap := mkInstallTap()
+	// every fourth history the flap is a transit's sleep/wake cycle; on chain5 it is the middle
+	// transit (both neighbours are transits too), elsewhere the transit next to the ingress
+	sleeper := -1
+	if ci%4 == 3 {
+		sleeper = 1
+		if (ci/4)%2 == 0 {
+			tp = byName["chain5"]
+			exitNode = len(tp.Spec.Names) - 1
+			sleeper = 2
+		}
+	}
+	c16ExtraCfg = func(i int, c *config.Config) {
+		if i == sleeper {
+			c.Sleep.Enabled = true
+			c.Sleep.PollInterval = time.Hour
+			c.Sleep.PersistState = false
+		}
+	}
 	m, err := c16BuildMesh(t, tp, dest, idle)
+	c16ExtraCfg = nil
 	if err != nil {
 		tap.close()
 		dest.close()
@@ -223,7 +245,9 @@ func c16FlapScenario(t testing.TB, r *verifkit.R, phase string, ci int, rng *ver
 	}
 	out.Held = len(held)
 
-	// ---- flap
+	// ---- flap: one link is lost (keepalive timeout on one side), or — every fourth history — a
+	// transit goes to sleep and wakes up again (sleep mode closes all its connections and
+	// listeners; waking re-dials and re-listens), with live traffic on it in half of those
 	e := tp.Spec.Edges[rng.Intn(len(tp.Spec.Edges))]
 	if len(tp.Spec.Edges) >= 3 && ci%3 != 1 {
 		// a link between two pure transits (no endpoint of any tunnel holds state for it)
@@ -231,21 +255,57 @@ func c16FlapScenario(t testing.TB, r *verifkit.R, phase string, ci int, rng *ver
 	}
 	closer := e[rng.Intn(2)]
 	other := e[0] + e[1] - closer
+	flapped := [][2]int{e}
+	if sleeper >= 0 {
+		flapped = [][2]int{{sleeper - 1, sleeper}, {sleeper, sleeper + 1}}
+		e, closer = flapped[0], sleeper
+		out.Sleeper = m.nodes[sleeper].name
+	}
 	out.FlapEdge, out.Closer = e, closer
-	oldA := m.nodes[e[0]].a.peerMgr.GetPeer(m.nodes[e[1]].a.ID())
-	oldB := m.nodes[e[1]].a.peerMgr.GetPeer(m.nodes[e[0]].a.ID())
-	if !mkKillLink(m.nodes[closer].a, m.nodes[other].a.ID()) {
+	type pair struct{ a, b any }
+	old := make([]pair, len(flapped))
+	for i, fe := range flapped {
+		old[i] = pair{m.nodes[fe[0]].a.peerMgr.GetPeer(m.nodes[fe[1]].a.ID()), m.nodes[fe[1]].a.peerMgr.GetPeer(m.nodes[fe[0]].a.ID())}
+	}
+	if sleeper >= 0 {
+		S := m.nodes[sleeper].a
+		var busy sync.WaitGroup
+		if rng.Chance(1, 2) {
+			// traffic in flight through the transit while it goes to sleep
+			for i := 0; i < 2; i++ {
+				p := mkTunnelPlan{ID: base + 0x180 + uint64(i), Ingress: 0, Via: "tcp", Dest: destOf(20 + i), C2S: 3 << 20, S2C: 3 << 20, Mode: mkModeOrderly, Chunk: 16384}
+				busy.Add(1)
+				go func() { defer busy.Done(); mkRunTunnel(m, p, 4*time.Second) }()
+			}
+			time.Sleep(time.Duration(20+rng.Intn(60)) * time.Millisecond)
+			out.BusyAtSleep = true
+		}
+		if err := S.sleepMgr.Sleep(); err != nil {
+			return fail("transit could not enter sleep mode: " + err.Error())
+		}
+		time.Sleep(time.Duration(100+rng.Intn(400)) * time.Millisecond)
+		if err := S.sleepMgr.Wake(); err != nil {
+			return fail("transit could not wake: " + err.Error())
+		}
+		busy.Wait()
+	} else if !mkKillLink(m.nodes[closer].a, m.nodes[other].a.ID()) {
 		return fail("link to flap was not up")
 	}
 	deadline := time.Now().Add(40 * time.Second)
 	for {
-		na := m.nodes[e[0]].a.peerMgr.GetPeer(m.nodes[e[1]].a.ID())
-		nb := m.nodes[e[1]].a.peerMgr.GetPeer(m.nodes[e[0]].a.ID())
-		if na != nil && nb != nil && na != oldA && nb != oldB {
+		up := true
+		for i, fe := range flapped {
+			na := m.nodes[fe[0]].a.peerMgr.GetPeer(m.nodes[fe[1]].a.ID())
+			nb := m.nodes[fe[1]].a.peerMgr.GetPeer(m.nodes[fe[0]].a.ID())
+			if na == nil || nb == nil || any(na) == old[i].a || any(nb) == old[i].b {
+				up = false
+			}
+		}
+		if up {
 			break
 		}
 		if time.Now().After(deadline) {
-			return fail("the closed link was not re-established within 40 s")
+			return fail("the lost link(s) were not re-established within 40 s")
 		}
 		time.Sleep(20 * time.Millisecond)
 	}
@@ -471,7 +531,7 @@ func TestVerif_C16_Flap(t *testing.T) {
 	r.Rule("scenario = chain topology x PRNG link-flap history: tunnels completed and tunnels held open before one link is closed and re-established; afterwards new concurrent tunnels run " +
 		"while the clients of the dead tunnels write to and close them; every new tunnel's two byte streams are verified byte-by-byte at both application ends and must complete; " +
 		"non-trivial = history in which at least one new tunnel had different stream ids on two of its hops (computed from the frame tap) and tunnels were held across the flap; distinct by (topology, flap edge, plans)")
-	r.Cases("flap", r.N(6, 60), func(ci int, rng *verifkit.Rand) {
+	r.Cases("flap", r.N(8, 64), func(ci int, rng *verifkit.Rand) {
 		out, m, cleanup := c16FlapScenario(t, r, "flap", ci, rng, 30*time.Second, true, false)
 		if out == nil {
 			return
@@ -482,6 +542,9 @@ func TestVerif_C16_Flap(t *testing.T) {
 			r.Add("agents_stop_watchdog", len(hung))
 		}
 		r.Add("flap_histories", 1)
+		if out.Sleeper != "" {
+			r.Add("flap_histories_transit_sleep_wake", 1)
+		}
 		r.Add("tunnels_held_across_flap", out.Held)
 		r.Add("stage2_tunnels", len(out.Stage2))
 		r.Add("stage2_tunnels_with_divergent_ids", out.DivergentIDs)
@@ -524,6 +587,9 @@ func TestVerif_C17_Flap(t *testing.T) {
 		last, zero, unchanged, samples := c17Settle(m, 40*time.Second, 9*time.Second)
 		r.Add("bookkeeping_samples", samples)
 		r.Add("flap_histories", 1)
+		if out.Sleeper != "" {
+			r.Add("flap_histories_transit_sleep_wake", 1)
+		}
 		r.Add("tunnels_held_across_flap", out.Held)
 		r.Add("stage2_tunnels_with_divergent_ids", out.DivergentIDs)
 		r.Add("peak_entries_seen", int(out.PeakBook))
